@@ -133,6 +133,18 @@ theorem C04_mtime_readback (fs fs' : FS) (abs : List Comp) (p : FPath) (t : Int)
   have : ¬ t < 0 := by omega
   simp [this]
 
+/-- **On the file-system model: a second run plans nothing.**  After the destination half of a sync
+(`syncDest`, which `C01_mirror_fs` shows to end `ok` in the mirror state), the plan computed from the
+same source and any complete listing of the destination as it now is — has no deletion and no creation:
+whatever was written (times at ns resolution, link texts through `writeLinkB`) reads back as up to date. -/
+theorem C04_second_run_empty_fs {fs0 : FS} {r : FPath} {ld ld' : List (FPath × Node)} {src : FPath → Option SEntry}
+    {ls : List (FPath × SEntry)} (hw : DestWF fs0 r ld) (hs : SrcWF src ls) :
+    ∃ fs', syncDest fs0 r src ls ld = .ok fs' ∧
+      ((∀ p n, (p, n) ∈ ld' → p ≠ [] ∧ fs'.get (r ++ p) = some n) →
+        planDel src ld' = [] ∧ planCpy (fun p => fs'.get (r ++ p)) ls = []) := by
+  obtain ⟨fs', h1, -, -, hm⟩ := sync_mirror hw hs
+  exact ⟨fs', h1, fun hld => second_plan_empty hm (fun p e h => (hs.listed p e).mp h) hld⟩
+
 /-- Non-vacuity of `C04_replan_empty`'s hypotheses: a source with a file, a folder and a link whose text is
 not in normal form, an empty destination; the read-back destination satisfies `h1`/`h2`. -/
 example : readLinkB (writeLinkB '/' (readLinkB (utf8 "a//b/".toList))) = .normalized "a/b" ∧
